@@ -298,7 +298,23 @@ func (m *Machine) Step() (d *Diff, done bool) {
 		return nil, true
 	}
 	if err != nil {
-		return &Diff{Class: "error-on-instruction", What: fmt.Sprintf("Step at instruction %#x fails: %v", pc, err)}, true
+		// which memory ranges does the instruction touch in the pre-state?
+		cls := "error-on-instruction"
+		env := m.refEnv()
+		_, lds := accesses(ins.Effects(), env)
+		for _, ef := range ins.Effects() {
+			if st, ok := ef.(expr.MemStore); ok {
+				lds[[2]uint64{ir.Eval(st.Addr(), env).Uint64(), uint64(st.Width())}] = true
+			}
+		}
+		for k := range lds {
+			if end := k[0] + k[1]; end == 0 {
+				cls = "error-on-access-ending-at-2^64"
+			} else if end < k[0] && cls == "error-on-instruction" {
+				cls = "error-on-access-wrapping-2^64"
+			}
+		}
+		return &Diff{Class: cls, What: fmt.Sprintf("Step at instruction %#x fails: %v", pc, err)}, true
 	}
 	m.Steps++
 	word := m.words[uint64(ins.OrigAddr())]
